@@ -44,6 +44,10 @@ CHECKS = {
    text="reference-evaluator monitor: random calculation trees (depth <= 4, + - * /, px/in/cm/em/rem/%/vw/deg/turn/s/ms/unitless, negatives, nested calc/min/max/clamp, variables or interpolation as operands, both styles) are compiled; an independent evaluator computes the quantity of the source AST and of the emitted text (own tokenizer/parser: precedence, parentheses, signs) under 8 random unit environments and the two must agree; outputs must be a plain number iff all operands are mutually convertible; provably incompatible operands must be rejected; panics refute",
    note="tolerance 2e-6 relative (emitted numbers carry 10 digits); `%` is treated as possibly compatible with anything; one known finding (clamp with MIN > MAX, mirrors dart-sass) is matched only when the expression contains such a clamp",
    technique="runtime monitoring: reference-model (independent calc evaluator) oracle over compiled outputs under randomised unit environments"),
+ "C14": dict(engine="vw+vp",
+   text="reference-model monitor: vp/model/builtins.py (written from the sass-lang.com documentation) predicts the structural result or the argument-error status of every call of the list, map and string built-ins with generated arguments (lists of length 0-6 x separators x brackets, indices in [-8,8] and non-integers, nested maps and key paths, strings with combining/astral/ZWJ code points, wrongly typed and surplus/missing arguments); results are compared as value structures delivered by the probe (not text), and every sass:list/map/string function is compared with its global alias on the same arguments",
+   note="error status only (not wording); separators of lists with fewer than two elements are not compared; equality of the empty list and the empty map is not imposed",
+   technique="runtime monitoring: reference-model oracle over probe-observed value structures + alias differential"),
 }
 
 ALL = ["C%02d" % i for i in range(1, 21)]
